@@ -653,6 +653,19 @@ def run(repo, rep, tier):
         f.file == OPS and f.name in (
             '_validate_MaxObjectCount_OpenPull', '_validate_context',
             '_validate_MaxObjectCount_Iter', '_validate_OperationTimeout')))
+    pull_kinds_rule(repo, rep, r6, mp)
+    from .c13 import adapters_forward_every_filter
+    adapters_forward_every_filter(
+        repo, rep, 'C14.R16', lambda n: n[7:].startswith(
+            ('Open', 'Pull', 'Close')), 10)
+
+
+def pull_kinds_rule(repo, rep, r6, mp):
+    """every Open operation of the mock server registers its enumeration
+    context under the pull operation DSP0200 pairs it with, and every Pull
+    operation accepts exactly its own kind (C14.R6; also C13: a context
+    registered under another kind can never be continued, so the
+    Open/Pull/Iter variant delivers only its first batch)"""
     # ---------------- R6 -------------------------------------------------
     noret = no_return_funcs(repo, mp)
     pulls = {}
